@@ -70,9 +70,48 @@ fn spec_of(s: &str) -> (bool, LogSpecification) {
         Err(_) => (false, LogSpecification::off()),
     }
 }
+/// The specfile route of a started program (`Logger::build_with_specfile`): the first start finds no file and writes
+/// the specification it was given into it, the next start - whatever specification it is given - reads the file and
+/// takes the specification from there.  The logger of that second start must decide like a logger that got `sp` directly.
+fn specfile_roundtrip(sp: &LogSpecification) -> String {
+    static N: std::sync::atomic::AtomicUsize = std::sync::atomic::AtomicUsize::new(0);
+    let dir = crate::util::scratch_root().join(format!("specfile{}", N.fetch_add(1, std::sync::atomic::Ordering::SeqCst)));
+    let path = dir.join("sub").join("logspec.toml");
+    let res = (|| {
+        let first = Logger::with(sp.clone()).do_not_log().build_with_specfile(&path);
+        if first.is_err() {
+            return "ERR1".to_string();
+        }
+        drop(first);
+        let Ok((log2, _h2)) = Logger::with(LogSpecification::off()).do_not_log().build_with_specfile(&path) else {
+            return "ERR2".to_string();
+        };
+        let Ok((log0, _h0)) = Logger::with(sp.clone()).do_not_log().build() else {
+            return "ERR0".to_string();
+        };
+        let mut probes: Vec<String> = vec!["".into(), "zzz".into(), "a".into(), "a::b::c::d".into()];
+        for f in sp.module_filters() {
+            if let Some(n) = &f.module_name {
+                probes.extend([n.clone(), format!("{n}::x"), format!("{n}x"), n.chars().take(n.chars().count().saturating_sub(1)).collect()]);
+            }
+        }
+        for t in &probes {
+            for l in [log::Level::Error, log::Level::Warn, log::Level::Info, log::Level::Debug, log::Level::Trace] {
+                let md = log::Metadata::builder().level(l).target(t).build();
+                if log0.enabled(&md) != log2.enabled(&md) {
+                    return format!("diff:{}:{}", hex(t.as_bytes()), l);
+                }
+            }
+        }
+        "same".to_string()
+    })();
+    let _ = std::fs::remove_dir_all(&dir);
+    res
+}
 fn observe(ok: bool, sp: &LogSpecification, canonical: bool) -> String {
     let d = sp.to_string();
     let (rok, rsp) = spec_of(&d);
+    let sf = if toml_safe(sp.module_filters()) { specfile_roundtrip(sp) } else { "-".to_string() };
     let t = if toml_safe(sp.module_filters()) {
         let mut buf = Vec::new();
         match sp.to_toml(&mut buf) {
@@ -86,14 +125,15 @@ fn observe(ok: bool, sp: &LogSpecification, canonical: bool) -> String {
         "-".to_string()
     };
     format!(
-        "{} f{} tf{} {} r{} rf{} t{}",
+        "{} f{} tf{} {} r{} rf{} t{} sf{}",
         if ok { "ok" } else { "err" },
         show_filters(sp.module_filters(), canonical),
         u8::from(sp.text_filter().is_some()),
         if canonical { "d*".to_string() } else { format!("d{}", hex(d.as_bytes())) },
         if rok { "ok" } else { "err" },
         show_filters(rsp.module_filters(), canonical),
-        t
+        t,
+        sf
     )
 }
 
